@@ -598,7 +598,21 @@ def sharing_scenario(g, r, schemas, pkg):
     followed by option actions that write through what the copies share"""
     allb = builders_of(schemas)
     brules, orules = [], []
-    mk = r.choice(["merge_into", "merge_into", "compose", "promote", "add_option"])
+    mk = r.choice(["merge_into", "merge_into", "compose", "promote", "add_option", "dup_option", "dup_builder"])
+    if mk in ("dup_option", "dup_builder"):
+        # deep copies: a write on the copy (or on the original) must NOT reach the other
+        cands = [b for b in allb if b["pkg"] == pkg and b["opts"]] or [b for b in allb if b["opts"]]
+        if not cands:
+            return [g.brule()], [g.orule()]
+        b = r.choice(cands)
+        sf = r.choice(b["opts"])
+        if mk == "dup_option":
+            orules.append({"duplicate": {"by_name": b["obj"] + "." + sf["name"], "as": "copyOf"}})
+            orules.append(writer_rule(g, r, {"by_name": b["obj"] + "." + r.choice(["copyOf", sf["name"]])}, sf))
+        else:
+            brules.append({"duplicate": {"by_object": b["obj"], "as": "Copy"}})
+            orules.append(writer_rule(g, r, {"by_builder": r.choice(["Copy", b["name"]]) + "." + sf["name"]}, sf))
+        return brules, orules
     if mk == "merge_into":
         cands = [(d, f, s) for d in allb if d["pkg"] == pkg for f in d["fields"] if f["type"].get("k") == "ref"
                  for s in allb if s["pkg"] == d["pkg"] and s["obj"] == f["type"].get("name") and f["type"].get("pkg") == s["pkg"]
@@ -847,6 +861,9 @@ def seed_jobs():
         (base, "alpha", [], [{"add_comments": {"by_name": "Foo.flag", "comments": ["a flag"]}}]),
         (base, "alpha", [{"rename": {"by_object": "foo", "as": "FooBuilder"}}], []),
         (base, "alpha", [{"omit": {"by_name": "BAR"}}], []),
+        # deep copies share nothing: writes on the copy leave the original alone
+        (base, "alpha", [], [{"duplicate": {"by_name": "Foo.tags", "as": "tagsAgain"}}, {"array_to_append": {"by_name": "Foo.tagsAgain"}}]),
+        (base, "alpha", [{"duplicate": {"by_object": "Foo", "as": "FooCopy"}}], [{"rename_arguments": {"by_builder": "FooCopy.flag", "as": ["enabled"]}}]),
         # rules that assume the shape FromAST derives (argument type = target type, one argument)
         (base, "alpha", [], [{"disjunction_as_options": {"by_name": "Foo.either"}}, {"map_to_index": {"by_name": "Foo.map"}}]),
         (base, "alpha", [], [{"disjunction_as_options": {"by_name": "Foo.sub"}}, {"struct_fields_as_options": {"by_name": "Foo.bar"}}]),
